@@ -62,10 +62,12 @@ def run(tier, seed, replay=None):
     if not replay:
         r = flow.rng(seed, "c16gp")
         runs = []
-        for i in range(40 if tier == "thorough" else 12):
-            pop = r.randrange(4, 13)
+        for i in range(40 if tier == "thorough" else 15):
             mn = r.random() < 0.5
-            step = ["par", [["elitism"], ["novelty"], ["seq", [["tournament", 2, False], ["crossover", 1], ["mutation", 1]]]], [2, 1, 3]]
+            # weight vectors whose elitism share of the population is >= 1 only after rounding (share in (0.5, 1)) as well as comfortably >= 1
+            ws, pops = [([2, 1, 3], range(4, 13)), ([5, 5, 90], range(11, 20)), ([1, 0, 4], range(3, 5)), ([5, 5, 90], range(20, 31)), ([3, 2, 15], range(4, 7))][i % 5]
+            pop = r.choice([n for n in pops if round(ws[0] * n / sum(ws)) >= 1])
+            step = ["par", [["elitism"], ["novelty"], ["seq", [["tournament", 2, False], ["crossover", 1], ["mutation", 1]]]], ws]
             runs.append({"op": "c14", "algo": "gp", "pop": pop, "step": step, "problem": {"kind": "so", "min": mn}, "mo": False,
                          "table": sc.gen_table(r, 23, 1, values=[sc.Fraction(v) for v in range(-6, 7)]), "budget": {"eval": pop * (30 if tier == "thorough" else 12)}, "seed": r.randrange(1000)})
         res = core.run_impl("search", {"cases": runs})
